@@ -4,6 +4,7 @@ import (
 	"encoding/json"
 	"fmt"
 	"testing"
+	"time"
 
 	"github.com/weedbox/pokertable"
 
@@ -47,6 +48,12 @@ func captureState(s *sim.Sim, actionEvents int) fullState {
 }
 
 func c10Body(c *run.Ctx) {
+	var payEvents []*pokertable.TablePlayerGameAction
+	type paid struct {
+		pid, round string
+		seat, gc   int
+	}
+	var paidNow []paid
 	actionEvents := 0
 	var lastActionEv *pokertable.TablePlayerGameAction
 	refusedOutOfTurn, refusedNonPart := 0, 0
@@ -57,7 +64,9 @@ func c10Body(c *run.Ctx) {
 		if ev.Kind == "action" {
 			if ev.Action.Action == "pay" {
 				// antes / blinds received: announced by the hand's completion goroutine, which
-				// may still be running when the next request has already been published
+				// may still be running when the next request has already been published; they
+				// are matched against the accepted payments when the hand is over
+				payEvents = append(payEvents, ev.Action)
 				return
 			}
 			actionEvents++
@@ -244,6 +253,13 @@ func c10Body(c *run.Ctx) {
 		if a.Err != nil {
 			return
 		}
+		if a.Kind == "pay" && s.Cur != nil && s.Cur.Opened != nil {
+			seat := -1
+			if p := sim.FindPlayer(s.Cur.Opened, a.PID); p != nil {
+				seat = p.Seat
+			}
+			paidNow = append(paidNow, paid{a.PID, a.Round, seat, s.Cur.GameCount})
+		}
 		switch a.Kind {
 		case "ready", "pay":
 			return
@@ -311,6 +327,39 @@ func c10Body(c *run.Ctx) {
 		evBefore, callsBefore = actionEvents, s.BE.NumCalls()
 	}
 	o.AfterHand = func(s *sim.Sim, h *sim.Hand) {
+		// every accepted ante / blind payment of the hand has been announced by now (the hand is
+		// settled, the announcements were queued many steps ago): one pay event naming the payer,
+		// his seat and the hand
+		if h.SettledT != nil {
+			s.Drain()
+			need := map[string]int{}
+			for _, pd := range paidNow {
+				need[pd.pid]++
+			}
+			for _, pd := range paidNow {
+				// an ante and a blind paid by the same player are two accepted payments: two events
+				found := func() bool {
+					n := 0
+					for _, e := range payEvents {
+						if e.PlayerID == pd.pid && e.GameCount == pd.gc && e.Seat == pd.seat && e.TableID == s.TableID {
+							n++
+						}
+					}
+					return n >= need[pd.pid]
+				}
+				if !found() {
+					s.WaitFor(2*time.Second, func(e *sim.Event) bool { return found() })
+				}
+				if !found() {
+					c.Failf("C10.accepted-pay-not-announced", "hand %d: %d payment(s) of %s (seat %d) were accepted (antes / blinds) but fewer pay events name him, his seat and the hand; pay events of the hand: %d", pd.gc, need[pd.pid], pd.pid, pd.seat, len(payEvents))
+				}
+				s.Label("accepted_pay_announced")
+				if need[pd.pid] > 1 {
+					s.Label("ante_and_blind_paid_by_one_player")
+				}
+			}
+		}
+		paidNow, payEvents = nil, nil
 		// after settlement / between hands / paused: nothing is accepted
 		if h.After != nil {
 			n := c.Ch.Int("intr.after", 0, 2)
